@@ -215,12 +215,12 @@ fn numeric_phase(thorough: bool) -> Phase {
 pub fn check(thorough: bool, _seed: u64) -> Check {
     let v5 = [1.0, 2.0, 3.0, 4.0, 5.0];
     let main = shapes(&v5, 5);
-    let inf = shapes(&[1.0, 2.0, f64::INFINITY], 3);
-    let nasty = shapes(&[-f64::MAX, -0.0, 0.0, 5e-324, 1.0, exact::succ(1.0), f64::MAX, f64::INFINITY], if thorough { 3 } else { 2 });
+    let inf = shapes(&[f64::NEG_INFINITY, 1.0, 2.0, f64::INFINITY], 3);
+    let nasty = shapes(&[f64::NEG_INFINITY, -f64::MAX, -0.0, 0.0, 5e-324, 1.0, exact::succ(1.0), f64::MAX, f64::INFINITY], if thorough { 3 } else { 2 });
     let mut phases = vec![
         sym_phase("provenance", main, json!({"operands": "every ordered pair of non-decreasing end lists of length 1..5 over {1..5}, both operators", "queries": "A(ends_f U ends_g)"}), true),
-        sym_phase("provenance-infinite-ends", inf, json!({"operands": "every ordered pair of end lists of length 1..3 over {1,2,+inf}"}), false),
-        sym_phase("provenance-nasty-ends", nasty, json!({"operands": "every ordered pair of end lists over {-MAX,-0.0,+0.0,5e-324,1,succ(1),MAX,+inf}"}), false),
+        sym_phase("provenance-infinite-ends", inf, json!({"operands": "every ordered pair of end lists of length 1..3 over {-inf,1,2,+inf}"}), false),
+        sym_phase("provenance-nasty-ends", nasty, json!({"operands": "every ordered pair of end lists over {-inf,-MAX,-0.0,+0.0,5e-324,1,succ(1),MAX,+inf}"}), false),
         numeric_phase(thorough),
     ];
     {
